@@ -178,6 +178,7 @@ def consumed_keys():
 
 def run(rep: core.Report):
     _r16g(rep)
+    _r16j(rep)
     from rules import c03
 
     rep.rule("R16h", "what save() writes is one state: after Phonopy.masses is assigned, unit cell, supercell and primitive cell all hold the new masses (the loader rebuilds everything from the unit cell), each derived from the freshly assigned values and not from an attribute read before its own update", 4)
@@ -656,6 +657,57 @@ def _r16g(rep):
         raise AnalysisError("R16g: no default-fill site left in the loading helpers (get_nac_params filled 'factor' on the confirmed tree)")
 
 
+
+def _r16j(rep):
+    """Two writes in one process are independent: class-level mutable defaults are never changed through an instance."""
+    rep.rule("R16j", "class-level dictionaries and lists that serve as defaults (e.g. the dumper's default settings) are copied before an instance changes them: no method mutates `self.<class attribute>` in place, directly or through a local alias bound without .copy() / dict() / list() / deepcopy, so that the settings of one save() cannot leak into the next one", 1)
+    MUT = {"update", "append", "extend", "pop", "popitem", "clear", "setdefault", "insert", "remove", "sort", "reverse"}
+    n_inst = 0
+    for rel in (YML, API, "phonopy/cui/load.py", LOADH, "phonopy/cui/settings.py", FIO):
+        tree = core.parse(rel)
+        for cls in [c for c in ast.walk(tree) if isinstance(c, ast.ClassDef)]:
+            shared = {}
+            for st in cls.body:
+                if isinstance(st, (ast.Assign, ast.AnnAssign)):
+                    tgt = st.targets[0] if isinstance(st, ast.Assign) else st.target
+                    val = st.value
+                    if isinstance(tgt, ast.Name) and isinstance(val, (ast.Dict, ast.List, ast.Set)) or (isinstance(tgt, ast.Name) and isinstance(val, ast.Call) and core.src(val.func) in ("dict", "list", "set")):
+                        shared[tgt.id] = st
+            if not shared:
+                continue
+            for name, decl in shared.items():
+                bad = []
+                uses = 0
+                for m in [x for x in ast.walk(cls) if isinstance(x, ast.FunctionDef)]:
+                    aliases = set()
+                    for st in sorted((x for x in ast.walk(m) if isinstance(x, ast.Assign)), key=lambda x: x.lineno):
+                        v = st.value
+                        if isinstance(v, ast.Attribute) and v.attr == name and core.src(v.value) in ("self", "cls", cls.name) and isinstance(st.targets[0], (ast.Name, ast.Attribute)):
+                            aliases.add(core.src(st.targets[0]))
+                    for x in ast.walk(m):
+                        if isinstance(x, ast.Attribute) and x.attr == name and core.src(x.value) in ("self", "cls", cls.name):
+                            uses += 1
+
+                        def is_shared(e):
+                            return (isinstance(e, ast.Attribute) and e.attr == name and core.src(e.value) in ("self", "cls", cls.name)) or core.src(e) in aliases
+
+                        if isinstance(x, ast.Call) and isinstance(x.func, ast.Attribute) and x.func.attr in MUT and is_shared(x.func.value):
+                            bad.append(x)
+                        if isinstance(x, (ast.Assign, ast.AugAssign)):
+                            tg = x.targets[0] if isinstance(x, ast.Assign) else x.target
+                            if isinstance(tg, ast.Subscript) and is_shared(tg.value):
+                                bad.append(x)
+                            if isinstance(x, ast.AugAssign) and is_shared(tg):
+                                bad.append(x)
+                if not uses:
+                    continue
+                n_inst += 1
+                rep.instance("R16j", rel, f"{cls.name}.{name}", f"class-level {type(decl.value).__name__.lower()} read by {uses} instance expression(s)", not bad,
+                             f"'{core.norm(core.src(bad[0]), 70) if bad else ''}' changes the class-level object {cls.name}.{name} in place (directly or through an alias bound without a copy): every later instance starts from the changed defaults, so a save() with reduced settings makes the next default save() omit forces / NAC parameters and load() cannot reproduce the state", line=(bad[0].lineno if bad else decl.lineno))
+    if not n_inst:
+        raise AnalysisError("R16j: no class-level mutable default found (PhonopyYamlDumperBase._default_dumper_settings on the confirmed tree)")
+
+
 def selftest():
     V = []
     b = lambda name, file, old, new, rule, expect="", **kw: V.append(dict(name=name, kind="break", file=file, old=old, new=new, rule=rule, expect=expect, **kw))
@@ -673,4 +725,5 @@ def selftest():
     n("default filled with setdefault-like guard order", LOADH, '    if _nac_params and "factor" not in _nac_params and nac_factor is not None:', '    if nac_factor is not None and _nac_params and "factor" not in _nac_params:')
     n("default filled by a merge with the defaults first", LOADH, '    if _nac_params and "factor" not in _nac_params and nac_factor is not None:\n        _nac_params["factor"] = nac_factor', '    if _nac_params and nac_factor is not None:\n        _nac_params = {"factor": nac_factor, **_nac_params}')
     b("unit-cell masses read from the supercell before it is updated", API, "        u2s_map = self._supercell.u2s_map\n        u_masses = s_masses[u2s_map]\n        self._unitcell.set_masses(u_masses)", "        self._unitcell.set_masses(self._unitcell.masses)", "R16h", "self._unitcell")
+    b("dumper settings merged into the class-level defaults", YML, "        self._dumper_settings = self._default_dumper_settings.copy()", "        self._dumper_settings = self._default_dumper_settings", "R16j", "_default_dumper_settings")
     return V
